@@ -105,7 +105,7 @@ def outcome(r):
 
 # ---------------------------------------------------------------------------
 
-def replay(chk, build, renders, label, stats):
+def replay_renders(chk, build, renders, label, stats):
     """Run all renderings; compare .ap within each tree; record drift of the -WD+lin streams."""
     texts = [layout.text_of(r) for r in renders]
     t0 = time.time()
@@ -188,7 +188,7 @@ def spec_dir(seed, progs=None):
     """A scratch copy of the C14 modules with the seed written into the configurations and LayoutVocab generated
     (with the programs, if any)."""
     d = vlib.scratch("c14spec")
-    for f in ("Scan.tla", "Linear.tla", "Layout.tla"):
+    for f in ("Scan.tla", "Linear.tla", "Layout.tla", "ScanPairs.tla", "ScanPairs.cfg"):
         shutil.copy(os.path.join(vlib.SPEC, f), d)
     for f in os.listdir(vlib.SPEC):
         if f.startswith("Layout") and f.endswith(".cfg"):
@@ -210,6 +210,10 @@ def tlc_renders(chk, d, cfg, name, workers, timeout, stats, names=None):
         chk.violation("the model violates %s" % r.violated, r.trace_text, key={"model": "Layout", "cfg": cfg, "inv": r.violated})
     if not renders and not r.violated:
         raise vlib.MachineryError("TLC run %s exported no rendering" % name)
+    # non-vacuity: the machine is a chain of 11 actions per (tree, style); all of them were taken for every rendering
+    # exactly when the number of distinct states is 12 per rendering (-coverage is unusable here: it exhausts the heap)
+    if not r.violated and r.distinct != 12 * len(renders):
+        raise vlib.MachineryError("TLC run %s: %d states for %d renderings (expected 12 each)" % (name, r.distinct, len(renders)))
     bad = {}
     for x in renders:
         x["key"] = name + ":" + layout.tree_key(x["tree"])
@@ -235,9 +239,90 @@ def tlc_renders(chk, d, cfg, name, workers, timeout, stats, names=None):
     return renders
 
 
+PAIR_SEPS = {"sp": " ", "tab": "\t", "sp2": "  ", "esc": " _\n ", "esc2": " _\n    \t", "com": " --c\n ", "adj": ""}
+SENTINEL = "QQQQ"
+
+
+def scan_pairs(chk, build, d, workers, stats):
+    """Scanner level (spec/ScanPairs.tla): every token pair x every separator.  TLC decides which separators change
+    the tokens (model level: reported like the other model verdicts); the same texts go through the real scanner and
+    its token list (-WD+lin, 'Starting with') is compared with the model's: drift only."""
+    r = vlib.tlc("ScanPairs", "ScanPairs", workers=workers, timeout=2400, xmx="8g", cwd=d)
+    chk.add_tlc("ScanPairs", r)
+    cases = [json.loads(p[5:]) for p in r.printed if isinstance(p, str) and p.startswith("PAIR ")]
+    r.out, r.printed = "", []
+    if r.violated or not cases:
+        raise vlib.MachineryError("ScanPairs run failed: %s" % (r.violated or "no cases"))
+    st = stats.setdefault("scan_pairs", {})
+    st["cases"] = len(cases)
+    st["adjacent_allowed"] = sum(1 for c in cases if c["toks"]["adj"])
+    bad = {}
+    for c in cases:
+        ref = c["toks"]["sp"]
+        for n in c["differ"]:
+            got = [t for t in c["toks"][n]]
+            if n == "com":      # drop the comment and its newline
+                i = next((j for j, t in enumerate(got) if t[0] == "com"), None)
+                if i is not None:
+                    got = got[:i] + got[i + 2:]
+            k = next((j for j in range(min(len(ref), len(got))) if ref[j] != got[j]), min(len(ref), len(got)))
+            want = ref[k][1] if k < len(ref) else "<end>"
+            gk = got[k][0] if k < len(got) else "end"
+            bad.setdefault((want, gk, n == "adj"), []).append((c, n))
+    st["model_differing"] = {"%s->%s%s" % (w, g, " (adjacent)" if adj else ""): len(v) for (w, g, adj), v in bad.items()}
+    for (want, gk, adj), v in sorted(bad.items(), key=repr):
+        c, n = v[0]
+        if adj:
+            raise vlib.MachineryError("Layout!NeedBlank lets %r and %r touch but the scanner model joins them" % (c["a"], c["b"]))
+        chk.violation("model: the transcription of scan.c reads a %s token where `%s %s %s` has %r when the separator is %s "
+                      "(%d pair/separator cases)" % (gk, c["p"], c["a"], c["b"], want, n, len(v)),
+                      {"case": c}, key={"kind": "model-pairs", "scan_want": want, "scan_got": gk,
+                                        "program": "%s %s %s" % (c["p"], c["a"], c["b"]), "style": n})
+    # the real scanner on the same texts
+    segs = []
+    for ci, c in enumerate(cases):
+        for n, sep in PAIR_SEPS.items():
+            if n == "adj" and not c["toks"]["adj"]:
+                continue
+            segs.append((ci, n, "%s %s%s%s\n" % (c["p"], c["a"], sep, c["b"])))
+    per = 1500
+    texts = ["".join(t + SENTINEL + "\n" for _, _, t in segs[i:i + per]) for i in range(0, len(segs), per)]
+    results = compile_all(build, texts)
+    mism = 0
+    first = []
+    compared = 0
+    for fi, res in enumerate(results):
+        got = layout.parse_lin_debug(res["out"]).get("starting")
+        chunk = segs[fi * per:(fi + 1) * per]
+        if got is None:
+            mism += len(chunk)
+            continue
+        parts, cur = [], []
+        for t in got:
+            if t == SENTINEL:
+                parts.append(cur)
+                cur = []
+            else:
+                cur.append(t)
+        for j, (ci, n, text) in enumerate(chunk):
+            exp = [t[1] for t in cases[ci]["toks"][n]]
+            # after a sentinel comes its newline: part j starts with <NL> for j > 0
+            g = parts[j] if j < len(parts) else None
+            if g is not None and j > 0 and g[:1] == ["<NL>"]:
+                g = g[1:]
+            compared += 1
+            if g != exp:
+                mism += 1
+                if len(first) < 5:
+                    first.append({"text": text, "spec": exp, "code": g})
+    st["real_scanner_compared"] = compared
+    st["real_scanner_drift"] = mism
+    st["real_scanner_drift_first"] = first
+
+
 def one_part(chk, build, d, cfg, label, workers, timeout, stats, names=None):
     renders = tlc_renders(chk, d, cfg, label, workers, timeout, stats, names)
-    replay(chk, build, renders, label, stats)
+    replay_renders(chk, build, renders, label, stats)
     for r in renders[:2]:
         chk.sample({"part": label, "program": r["name"], "style": layout.style_text(r["sty"]), "source": layout.text_of(r)})
     return len(renders)
@@ -251,7 +336,7 @@ def run(chk, tier):
     workers = vlib.NCPU
     d = spec_dir(seed)
     # the design-level statement, decided by TLC itself (invariants), on the part of the vocabulary where it holds
-    r = vlib.tlc("Layout", "LayoutModel", workers=workers, timeout=600, xmx="8g", cwd=d, coverage=(tier == "thorough"))
+    r = vlib.tlc("Layout", "LayoutModel", workers=workers, timeout=900, xmx="8g", cwd=d)
     chk.add_tlc("LayoutModel", r)
     if r.violated:
         chk.violation("the model (Layout.tla over the transcription of scan.c/linear.c) violates %s" % r.violated,
@@ -267,7 +352,8 @@ def run(chk, tier):
         one_part(chk, build, d, "LayoutThorough1", "thorough1", workers, 1500, stats)
         one_part(chk, build, d, "LayoutThorough2", "thorough2", workers, 900, stats)
         one_part(chk, build, d, "LayoutFull", "full", workers, 1500, stats)
-        for k in range(3):      # 20 programs x 20 styles drawn by the seed, three draws
+        scan_pairs(chk, build, d, workers, stats)
+        for k in range(5):      # 20 programs x 20 styles drawn by the seed, five draws
             cfgp = open(os.path.join(vlib.SPEC, "LayoutProgs.cfg")).read().replace("Seed = 0", "Seed = %d" % (seed + 101 * k))
             open(os.path.join(dp, "LayoutProgs.cfg"), "w").write(cfgp)
             one_part(chk, build, dp, "LayoutProgs", "programs%d" % k, workers, 900, stats, names)
@@ -276,14 +362,33 @@ def run(chk, tier):
                 "each continuation none/stair/hang/esc twice; indent width 1..8, blank/white-space/comment lines and trailing "
                 "comments at every line boundary, tabs/spaces/mixed, token spacing spread over the trees by the seed) and 20 real "
                 "programs x 8 styles; thorough adds all trees <= 3 statements over 18 shapes x 16 styles, all trees <= 4 statements "
-                "over 8 shapes x 8 styles, trees <= 2 statements x the full 1792-style cross product, 20 programs x 20 seeded "
-                "styles x 3 draws; non-trivial = at least two renderings compared")
+                "over 10 shapes x 8 styles, trees <= 2 statements x the full 1792-style cross product, 20 programs x 20 seeded "
+                "styles x 5 draws, and at the scanner level every pair of keywords/operators/sample tokens x 7 separators; non-trivial = at least two renderings compared")
     chk.exhaustive = True
     chk.assumptions.append("the decision that two texts are layouts of one program is the spec's (Render in Layout.tla uses only "
                            "the layout rules of the User Guide); the parser (axl.z) is observed through -Fap, not modelled")
     chk.assumptions.append("`++` descriptions, `@` labels, #if/#include inside the programs, bytes >= 0x80 and interactive "
                            "(-Gloop) piling are outside the rendered layouts")
     chk.extra["c14"] = stats
+
+
+def replay(d):
+    """bin/verif replay C14 <file>: compile the two layouts of a recorded violation again with the compiler built from
+    the current working tree and say whether they still disagree (exit 1) or not (exit 0)."""
+    det = d.get("detail") or {}
+    if not isinstance(det, dict) or "source" not in det:
+        print("nothing to re-run in this record (model-level verdict)")
+        return 0
+    build = vlib.vbuild()
+    texts = [det["source"]] + ([det["reference_source"]] if "reference_source" in det else [])
+    res = compile_all(build, texts, want_lin=False, jobs=2)
+    for t, r in zip(texts, res):
+        print("---- source\n%s---- exit %d, .ap:\n%s" % (t, r["rc"], (r["ap"] or b"(none)").decode(errors="replace")))
+    if len(res) == 2:
+        same = outcome(res[0]) == outcome(res[1])
+        print("the two layouts %s" % ("agree now" if same else "still disagree"))
+        return 0 if same else 1
+    return 1 if res[0]["rc"] >= 124 else 0
 
 
 def selftest():
@@ -296,28 +401,28 @@ def selftest():
     d = spec_dir(0)
     cfg = open(os.path.join(d, "LayoutQuick.cfg")).read().replace("MaxN = 3", "MaxN = 2").replace('"enum+extra"', '"enum"').replace(', "L7"}', '}')
     open(os.path.join(d, "LayoutQuick.cfg"), "w").write(cfg)
-    r = vlib.tlc("Layout", "LayoutQuick", workers=8, timeout=600, cwd=d, coverage=True)
+    r = vlib.tlc("Layout", "LayoutQuick", workers=8, timeout=900, cwd=d)
     if r.error:
         raise vlib.MachineryError(r.error)
-    untaken = [a for a, (t, g) in r.coverage.items() if a.startswith("Do") and t == 0]
     renders = layout.parse_renders(r.printed)
+    untaken = [] if r.distinct == 12 * len(renders) else ["(some action: %d states for %d renderings)" % (r.distinct, len(renders))]
     for x in renders:
         x["key"] = layout.tree_key(x["tree"])
         x["name"] = layout.tree_text(x["tree"])
     stats = {}
-    replay(chk, build, renders, "selftest-clean", stats)
+    replay_renders(chk, build, renders, "selftest-clean", stats)
     clean = len(chk.violations)
     clean_drift = dict(stats["drift"]["stage_mismatch"])
     # (i) corrupt the lead of the last code line of a piled two-statement block
     victim = next(x for x in renders if x["sty"]["mode"] == "piled" and x["sty"]["cont"] == "none" and x["holds"]
-                  and x["name"] == "D1[L2 L3]")
-    code = [i for i, ln in enumerate(victim["text"]) if ln["toks"] and not ln["toks"][0].startswith("--") and ln["lead"]]
-    victim["text"][code[-1]]["lead"] = victim["text"][code[-1]]["lead"] + ["s"]
+                  and len(x["tree"]) == 2 and not x["tree"][0]["bl"] and not x["tree"][1]["bl"] and not x["sty"]["fbreak"])
+    code = [i for i, ln in enumerate(victim["text"]) if ln["toks"] and not ln["toks"][0].startswith(("--", "#"))]
+    victim["text"][code[-1]]["lead"] = victim["text"][code[-1]]["lead"] + ["s"]      # now a continuation line
     # (ii) corrupt one token of a recorded stream of another rendering
     other = next(x for x in renders if x is not victim and x["holds"] and len(x["streams"]["leaving"]) > 3)
     other["streams"]["leaving"][2] = "CORRUPT"
     stats2 = {}
-    replay(chk, build, renders, "selftest-corrupt", stats2)
+    replay_renders(chk, build, renders, "selftest-corrupt", stats2)
     for w, p in chk.violations:
         os.remove(p)
     print("selftest: actions never taken: %s" % (untaken or "none"))
@@ -331,7 +436,41 @@ def selftest():
 
 
 SELFTEST_NOTES = """
-(to be filled)
+Binding demonstration (2026-10-04, quick tier, each mutation applied in a scratch `git worktree` of /repo, compiler built by
+vlib.vbuild via VERIF_SRC, worktree removed afterwards).  "drift" = number of renderings whose -WD+lin stage dump differs
+from Linear.tla's stream (localises the rule; never the reason for the exit status).
+
+ caught (exit 1, VIOLATION lines):
+  M1  linear.c isPileRequired without KW_Then          ap-differs (dangling else re-binds), drift ending/mid/leaving 460
+  M2  linear.c isPileRequired without KW_Else          ap-differs (`where` re-binds, I2[..][L6]), drift 112
+  M3  linear.c isBackSetRequired rule 3 w/o followers  accept-differs (`else` on its own line gets a BackSet), drift 721
+  M4  linear.c isBackSetRequired rule 2 w/o KW_Comma   accept-differs (argument list continued after commas), drift 329
+  M5  linear.c pile0 `indent0 <= indentS` breaks       ap-differs, drift 2945
+  M6  include.c inclCalcIndentLevel tab = +8           ap-differs (needs lines of one pile reached by different blank/tab
+                                                        mixes: the `alt` tab style), drift 62
+  M7  linear.c linXSep deletes `;` only before closers accept-differs (`} ; else`), drift leaving 194
+  M8  token.c `where` no longer a follower             accept-differs (`} ; where`, needs the larger ExtraTrees), drift 18
+  M9  scan.c scAdvance1 skips blanks only after `_`    accept-differs (escaped line breaks), drift starting 1460
+  M11 linear.c isPileRequired without KW_With          ap-differs, drift 360
+  M12 linear.c isPileRequired without KW_Add           accept-differs, drift 360
+  M13 linear.c joinUp ignores hadBackSet               accept-differs, drift 2600
+  M16 scan.c `--` at the start of a line is no comment accept-differs, drift 2471
+ not caught, and rightly so (the parse tree does not change; only drift, or nothing observable):
+  M10 linXBlankLines keeps the newline after #pile (the blank first line is skipped by pile0 anyway)    drift 0
+  M14 pile0 does not skip blank lines (none is left after linXBlankLines)                                 drift 0
+  M15 linISepAfterDontPiles inserts nothing (`} <BackSet>` parses like `} ; <BackSet>`)                   drift mid 580, leaving 390
+ first round misses that changed the check: M2/M7 were masked because suppressed known findings used up the cap on
+ reported violations (fixed: the cap counts real violations only); M6 needed the `alt` tab style; M8 needed trees with a
+ multi-statement block before `where` (ExtraTrees).
+
+Corrupted record (python3 checks/c14.py --selftest): one blank added to the lead of one line of an exported piled rendering
+-> 1 VIOLATION (accept/ap differs); one token of a recorded `leaving` stream replaced -> drift leaving +1; clean replay of
+the same renderings -> 0 violations, no drift; every action of the machine taken (12 states per rendering).
+
+Unchanged tree: quick passes (exit 0, KNOWN-FINDING for the `.digits` defect) with VERIF_SEED default and 777.
+The candidate patch hooks/fix-c14-escape-floatstate.diff makes `x := v _<nl>.1` parse like `x := v .1` (checked by hand).
+-coverage 1 is unusable with these modules (heap exhaustion on a 5-second configuration); non-vacuity is shown by the
+state count (12 states = 11 actions per rendering) instead.
 """
 
 
